@@ -100,6 +100,15 @@ func c07Msg(tag byte) []byte {
 type c07State struct {
 	conns map[byte]*c07Conn
 	leaks []string
+	// kept: slices handed over by Conn.Read (with or without an error) that the application
+	// still holds; they are looked at again when the program is over
+	kept []c07Kept
+}
+
+type c07Kept struct {
+	x  *c07Conn
+	op string
+	b  []byte
 }
 
 func (st *c07State) check(x *c07Conn, op string, b []byte) {
@@ -248,6 +257,25 @@ func c07Do(st *c07State, k connCfg, op string) {
 		return nil
 	}
 	switch act {
+	case "connRead", "connReadCut":
+		// the whole-message API; connReadCut: the transport ends in the middle of the
+		// message, Read returns what it has together with the error. The application
+		// keeps the slice either way.
+		if x.r != nil || x.closed {
+			return
+		}
+		if act == "connReadCut" {
+			cut := len(x.p.In) / 2
+			if cut > 200 {
+				cut = 200
+			}
+			x.p.In = x.p.In[:cut]
+			x.p.InEOF = true
+			x.closed = true
+		}
+		_, b, _ := x.c.Read(bg)
+		st.check(x, act, b)
+		st.kept = append(st.kept, c07Kept{x, act, b})
 	case "readExact":
 		// the application knows the message length: it reads exactly that many bytes
 		// and goes on to the next message without asking for io.EOF
@@ -387,6 +415,9 @@ func c07Setup(prm c07Params) func(c *fw.Ctx, name string) explore.Setup {
 				c07Open(st, prm.K, 'B', 3)
 				for _, op := range prm.Prog {
 					c07Do(st, prm.K, op)
+				}
+				for _, kp := range st.kept {
+					st.check(kp.x, kp.op+" (slice kept by the application, looked at again after the later reads)", kp.b)
 				}
 				for _, tag := range []byte("ABC") {
 					if x := st.conns[tag]; x != nil && !x.closed {
@@ -909,6 +940,14 @@ func c07Scenarios(tier string) []scenario {
 		scs = append(scs, scenario{Name: prm.name(), Cfg: explore.Config{P: 1, Horizon: 60e9}, Setup: c07WSetup(prm)})
 	}
 	ks := []connCfg{{Client: false, Flate: true}, {Client: true, Flate: true}, {Client: false, Flate: true, CNCT: true, SNCT: true}, {Client: true, Flate: true, CNCT: true, SNCT: true}, {Client: true}}
+	// slices returned by Conn.Read, with and without an error, stay what they were while
+	// other connections read (whole-message reads, wsjson)
+	for _, k := range append(append([]connCfg(nil), ks...), connCfg{Client: false}) {
+		for i, pr := range [][]string{{"A.connReadCut", "B.connRead"}, {"A.connReadCut", "B.wsjson"}, {"A.connRead", "B.connRead", "A.connRead"}, {"A.connReadCut", "B.connReadCut", "C.open", "C.connRead"}, {"A.connRead", "B.connReadCut", "A.wsjson"}} {
+			prm := c07Params{K: k, Prog: pr}
+			scs = append(scs, scenario{Name: prm.name(), Cfg: explore.Config{P: 0, Horizon: 60e9}, Setup: c07Setup(prm), Group: fmt.Sprintf("prog-kept/%s/%d", k.String(), i%2)})
+		}
+	}
 	for _, k := range ks {
 		for i, pr := range progs {
 			// keep programs that touch at least two connections or read again / close
